@@ -1,8 +1,12 @@
 package main
 
 import (
+	"bytes"
 	"context"
+	"encoding/json"
 	"fmt"
+	"os"
+	"os/exec"
 	"reflect"
 	"strings"
 	"sync"
@@ -38,56 +42,35 @@ func runC15(c *Ctx) {
 		batches = 600
 	}
 	r := NewRng(c.Seed)
+	var mops []J
+	type mref struct {
+		b, i int
+		got  AdmitOut
+		desc J
+	}
+	var mrefs []mref
 	for b := 0; b < batches; b++ {
-		// a small cluster
-		namespaces := nsByName{}
-		pods := clusterLister{}
-		nsNames := []string{"n0", "n1", "n2", "n3", "n4", "exns"}
-		for _, n := range nsNames {
-			l := genLabels(r)
-			if r.Chance(1, 3) { // several namespaces with the same effective policy, one of them with a fail-open typo
-				l = map[string]string{api.EnforceLevelLabel: pick(r, []string{"baseline", "restricted", "privileged"})}
-				if r.Bool() {
-					l[api.WarnLevelLabel] = "basline"
-				}
-			}
-			namespaces[n] = l
-			for k := r.Intn(5); k > 0; k-- {
-				pods[n] = append(pods[n], genPopPod(r, k, []string{"exrc"}))
-			}
-		}
-		defaults := genDefaults(r)
-		exNS, exUsers, exRC := []string{"exns"}, []string{"exuser"}, []string{"exrc"}
-		mk := func(rec metrics.Recorder) *admission.Admission {
-			adm := &admission.Admission{
-				Configuration: &admissionapi.PodSecurityConfiguration{Defaults: defaults, Exemptions: admissionapi.PodSecurityExemptions{Namespaces: exNS, Usernames: exUsers, RuntimeClasses: exRC}},
-				Evaluator:     realEvaluator, Metrics: rec, PodSpecExtractor: admission.DefaultPodSpecExtractor{}, NamespaceGetter: namespaces, PodLister: pods}
-			if err := adm.CompleteConfiguration(); err != nil {
-				panic(err)
-			}
-			return adm
-		}
-		var reqs []*attrs
-		var descs []J
-		for i := 0; i < per; i++ {
-			a := genAdmitCase(r.Fork(), b*per+i, AdmitKnobs{FaultPct: 5, SynPct: 0, SubPct: 8})
-			a.NS = pick(r, append(nsNames, "missing"))
-			if a.Res == "namespaces" {
-				a.Name = a.NS
-				if a.Obj.Kind == "namespace" {
-					a.Obj.NSName = a.NS
-				}
-			}
-			if a.Obj.Pod != nil {
-				a.Obj.Pod.Namespace = a.NS
-			}
-			reqs = append(reqs, a.attributes())
-			descs = append(descs, J{"request": a.opJSON()["req"], "namespaceLabels": namespaces[a.NS]})
-		}
+		bt := c15Batch(r, b, per)
+		namespaces, pods, mk, reqs, descs := bt.namespaces, bt.pods, bt.mk, bt.reqs, bt.descs
 		// solo: a fresh controller per request
 		solo := make([]*admissionv1.AdmissionResponse, per)
 		for i, at := range reqs {
 			solo[i] = mk(&recorder{}).Validate(context.Background(), at).DeepCopy()
+		}
+		// "alone" can only be staged inside this process, which has by now handled thousands of requests: state kept at
+		// package level would be in both answers. The model is the reference that has no history at all: every answer is also
+		// compared with it (what differs is then re-asked of a fresh process, see below).
+		for i, a := range bt.cases {
+			if a.Res == "namespaces" || a.Obj.Kind == "err" || a.Old.Kind == "err" {
+				continue // the model's world for these needs the lister's population / decode faults: covered by the sweeps of C07, C11
+			}
+			a.NSLabels = namespaces[a.NS]
+			_, known := namespaces[a.NS]
+			a.NSErr = !known
+			a.ExNS, a.ExUsers, a.ExRC, a.Defaults = bt.exNS, bt.exUsers, bt.exRC, bt.defaults
+			a.Pods = pods[a.NS]
+			mops = append(mops, a.opJSON())
+			mrefs = append(mrefs, mref{b, i, projectResponse(solo[i], nil, nil, nil), descs[i]})
 		}
 		shared := mk(&recorder{})
 		check := func(i int, got *admissionv1.AdmissionResponse, mode string) {
@@ -137,6 +120,156 @@ func runC15(c *Ctx) {
 		if b == 0 {
 			c.Sample(descs[0])
 		}
+	}
+	// a few requests of the last batch are always re-asked of a fresh process (whether or not the model objects)
+	for _, i := range []int{0, 7, 13, 21, 30, 41} {
+		last := batches - 1
+		var ref *mref
+		for k := range mrefs {
+			if mrefs[k].b == last && mrefs[k].i == i {
+				ref = &mrefs[k]
+			}
+		}
+		if ref == nil {
+			continue
+		}
+		fresh, err := c15AskFreshProcess(c, last, i)
+		c.Eval(1)
+		c.Tag("c15.freshProcessReplays")
+		if err != nil {
+			c.Note("fresh-process replay failed: " + err.Error())
+			continue
+		}
+		if fd := diffAdmit(ref.got, fresh, "allowed code message warnings ann audit"); len(fd) > 0 {
+			c.Violate(Finding{Desc: "a request handled by this process after many others (by a freshly constructed controller) is answered differently from the same request handled first thing by a fresh process: " + strings.Join(fd, "; "),
+				Key: "depends-on-process-history", Input: J{"batch": last, "index": i, "request": ref.desc, "replayAlone": fmt.Sprintf("VERIF_C15_PICK=%d,%d bin/harness -prop C15-ALONE -seed %d", last, i, c.Seed)},
+				Go: J{"afterHistory": ref.got, "freshProcess": fresh}})
+		}
+	}
+	// the history-free reference
+	asked := 0
+	for k, o := range c.Lean(mops) {
+		l := leanAdmit(o)
+		m := mrefs[k]
+		c.Tag("c15.comparedWithModel")
+		d := diffAdmit(m.got, l, "allowed code message warnings ann audit")
+		if len(d) == 0 {
+			continue
+		}
+		// does the very same request get another answer from a process that has handled nothing else?
+		if asked < 6 {
+			asked++
+			if fresh, err := c15AskFreshProcess(c, m.b, m.i); err == nil {
+				if fd := diffAdmit(m.got, fresh, "allowed code message warnings ann audit"); len(fd) > 0 {
+					c.Violate(Finding{Desc: "a request handled by this process after many others (by a freshly constructed controller) is answered differently from the same request handled first thing by a fresh process: " + strings.Join(fd, "; "),
+						Key: "depends-on-process-history", Input: J{"batch": m.b, "index": m.i, "request": m.desc, "replayAlone": fmt.Sprintf("VERIF_C15_PICK=%d,%d bin/harness -prop C15-ALONE -seed %d", m.b, m.i, c.Seed)},
+						Go: J{"afterHistory": m.got, "freshProcess": fresh, "model": l}})
+					continue
+				}
+			} else {
+				c.Note("fresh-process replay failed: " + err.Error())
+			}
+		}
+		c.Disagree(Finding{Desc: "admission response differs from the model: " + strings.Join(d, "; "), Input: m.desc, Go: m.got, Lean: l})
+	}
+}
+
+type c15BatchT struct {
+	namespaces          nsByName
+	pods                clusterLister
+	defaults            admissionapi.PodSecurityDefaults
+	exNS, exUsers, exRC []string
+	mk                  func(rec metrics.Recorder) *admission.Admission
+	cases               []*AdmitCase
+	reqs                []*attrs
+	descs               []J
+}
+
+// c15Batch: a small cluster and the requests sent to it (a deterministic function of the generator state: a fresh process
+// given the same seed regenerates the same batches)
+func c15Batch(r *Rng, b, per int) *c15BatchT {
+	bt := &c15BatchT{namespaces: nsByName{}, pods: clusterLister{}}
+	nsNames := []string{"n0", "n1", "n2", "n3", "n4", "exns"}
+	for _, n := range nsNames {
+		l := genLabels(r)
+		if r.Chance(1, 3) { // several namespaces with the same effective policy, one of them with a fail-open typo
+			l = map[string]string{api.EnforceLevelLabel: pick(r, []string{"baseline", "restricted", "privileged"})}
+			if r.Bool() {
+				l[api.WarnLevelLabel] = "basline"
+			}
+		}
+		bt.namespaces[n] = l
+		for k := r.Intn(5); k > 0; k-- {
+			bt.pods[n] = append(bt.pods[n], genPopPod(r, k, []string{"exrc"}))
+		}
+	}
+	bt.defaults = genDefaults(r)
+	bt.exNS, bt.exUsers, bt.exRC = []string{"exns"}, []string{"exuser"}, []string{"exrc"}
+	bt.mk = func(rec metrics.Recorder) *admission.Admission {
+		adm := &admission.Admission{
+			Configuration: &admissionapi.PodSecurityConfiguration{Defaults: bt.defaults, Exemptions: admissionapi.PodSecurityExemptions{Namespaces: bt.exNS, Usernames: bt.exUsers, RuntimeClasses: bt.exRC}},
+			Evaluator:     realEvaluator, Metrics: rec, PodSpecExtractor: admission.DefaultPodSpecExtractor{}, NamespaceGetter: bt.namespaces, PodLister: bt.pods}
+		if err := adm.CompleteConfiguration(); err != nil {
+			panic(err)
+		}
+		return adm
+	}
+	for i := 0; i < per; i++ {
+		a := genAdmitCase(r.Fork(), b*per+i, AdmitKnobs{FaultPct: 5, SynPct: 0, SubPct: 8})
+		a.NS = pick(r, append(nsNames, "missing"))
+		if a.Res == "namespaces" {
+			a.Name = a.NS
+			if a.Obj.Kind == "namespace" {
+				a.Obj.NSName = a.NS
+			}
+		}
+		if a.Obj.Pod != nil {
+			a.Obj.Pod.Namespace = a.NS
+		}
+		a.NSErr, a.CtxCancelled, a.Remaining, a.ExpireAfter = false, false, 0, -1
+		bt.cases = append(bt.cases, a)
+		bt.reqs = append(bt.reqs, a.attributes())
+		bt.descs = append(bt.descs, J{"request": a.opJSON()["req"], "namespaceLabels": bt.namespaces[a.NS]})
+	}
+	return bt
+}
+
+// c15AskFreshProcess: the harness binary, started anew, regenerates batch b and handles request i — and nothing else
+func c15AskFreshProcess(c *Ctx, b, i int) (AdmitOut, error) {
+	cmd := exec.Command(os.Args[0], "-prop", "C15-ALONE", "-seed", fmt.Sprint(c.Seed), "-tier", c.Tier)
+	cmd.Env = append(os.Environ(), fmt.Sprintf("VERIF_C15_PICK=%d,%d", b, i))
+	var out bytes.Buffer
+	cmd.Stdout = &out
+	if err := cmd.Run(); err != nil {
+		return AdmitOut{}, err
+	}
+	var rep struct {
+		Samples []AdmitOut `json:"samples"`
+	}
+	if err := json.Unmarshal(out.Bytes(), &rep); err != nil || len(rep.Samples) != 1 {
+		return AdmitOut{}, fmt.Errorf("fresh process gave no answer: %v", err)
+	}
+	return rep.Samples[0], nil
+}
+
+func init() {
+	props["C15-ALONE"] = func(c *Ctx) {
+		var b, i int
+		if _, err := fmt.Sscanf(os.Getenv("VERIF_C15_PICK"), "%d,%d", &b, &i); err != nil {
+			panic("VERIF_C15_PICK=<batch>,<index> expected")
+		}
+		r := NewRng(c.Seed)
+		var bt *c15BatchT
+		for k := 0; k <= b; k++ {
+			bt = c15Batch(r, k, 48)
+			if k < b { // the generator state the parent had after batch k: two rounds of Perm and sixteen more
+				for round := 0; round < 18; round++ {
+					r.Perm(48)
+				}
+			}
+		}
+		resp := bt.mk(&recorder{}).Validate(context.Background(), bt.reqs[i])
+		c.Samples = append(c.Samples, projectResponse(resp, nil, nil, nil))
 	}
 }
 
